@@ -88,3 +88,32 @@ func vpH_c05_marshal() {
 		vpAssert(im[p.k] == any(p.v), "ToMapRecursive keeps nested values")
 	}
 }
+
+func init() { vpRegister("c19_marshal_frame", vpH_c19_marshal_frame) }
+
+// encoders do not write to the map they encode
+func vpH_c19_marshal_frame() {
+	m := vpMkMapSS(vpParam("slots"))
+	var items []Tuple[string, string]
+	items = append(items, m.items...)
+	var idx []vpPairS
+	for i, it := range m.items {
+		if j, ok := m.index[it.Key]; ok && j == i {
+			idx = append(idx, vpPairS{it.Key, ""})
+		}
+	}
+	nIndex := len(m.index)
+	_, _ = m.MarshalJSON()
+	_, _ = m.MarshalYAML()
+	_ = m.ToMap()
+	vpAssert(len(m.items) == len(items) && len(m.index) == nIndex, "encoders keep the number of slots and index entries (no lazy compaction)")
+	for i := range items {
+		if i < len(m.items) {
+			vpAssert(m.items[i] == items[i], "encoders do not rewrite slots")
+		}
+	}
+	for _, p := range idx {
+		_, ok := m.index[p.k]
+		vpAssert(ok, "encoders do not drop index entries")
+	}
+}
